@@ -126,6 +126,13 @@ def all_sites2(prog: Program) -> List[Site2]:
     return out
 
 
+def standalone_interps(prog: Program) -> Dict[str, Interp]:
+    """qualname -> event log of every function that is analysed on its own: the functions of the reference vocabulary and the
+    later helpers that nothing evaluates in line (a helper evaluated in line is judged in its callers' logs)."""
+    all_sites2(prog)
+    return _CACHE[id(prog)][1]
+
+
 def _is_container(it: Interp, t: Term) -> bool:
     """receiver of .copy() that is a dict / list / set object of the function (not a vector)"""
     return t[0] == "obj" and it.objs[t[1]].kind in ("dict", "list", "set", "defaultdict", "OrderedDict")
